@@ -64,29 +64,29 @@ def selftest(ctx, items, binary):
             break
     c2 = copy.deepcopy(base)
     dropped = False
-    used = set()
+    consumers = {}   # consumer node -> nodes it plainly requires
 
-    def walk(t):
+    def walk(t, acc):
         if t['t'] == 'ref':
-            used.update(t['refs'])
+            acc.update(t['refs'])
         elif t['t'] == 'map':
             for v in t['kids'].values():
-                walk(v)
+                walk(v, acc)
         elif t['t'] == 'list':
             for v in t['kids']:
-                walk(v)
-        elif t['t'] == 'opt':
-            walk(t['e'])
-        elif t['t'] == 'oneof':
-            for v in t['opts'].values():
-                walk(v)
-    for st in base['wf']['steps'].values():
-        for t in st['fields'].values():
-            walk(t)
-    for t in base['wf']['outputs'].values():
-        walk(t)
-    for i, e in enumerate(c2['events']):   # drop the resolution of a produced output that somebody consumes
-        if e['ev'] == 'Resolve' and e['status'] == 'R' and e['node'] in used:
+                walk(v, acc)
+    stage_of = {'input': 'starting', 'wait_for': 'starting', 'deploy': 'deploy', 'enabled': 'enabling', 'stop_if': 'cancelled'}
+    for sid, st in base['wf']['steps'].items():
+        for f, t in st['fields'].items():
+            walk(t, consumers.setdefault('steps.%s.%s' % (sid, stage_of.get(f, 'starting')), set()))
+    for oid, t in base['wf']['outputs'].items():
+        walk(t, consumers.setdefault('outputs.' + oid, set()))
+    evaluated = [e['node'] for e in c2['events'] if e['ev'] == 'Eval']
+    needed = set()
+    for n in evaluated:
+        needed |= {x for x in consumers.get(n, ()) if x != 'input'}
+    for i, e in enumerate(c2['events']):   # drop the resolution of a produced output that an evaluated consumer needs
+        if e['ev'] == 'Resolve' and e['status'] == 'R' and e['node'] in needed:
             del c2['events'][i]
             dropped = True
             break
